@@ -29,7 +29,8 @@ def P(pid, foot, mc, random, foot_acts=None, **kw):
     PROPS[pid] = d
 
 
-P('C01', ['sess.uid', 'sess.totpPend', 'sess.smsPend'], ['login', 'remember', 'recover', 'register'], ['core', 'full'])
+P('C01', ['sess.uid', 'sess.totpPend', 'sess.smsPend'], ['login', 'remember', 'recover', 'register', 'oauth'], ['core', 'full'],
+  fam_consts={'oauth': {'Pids': '{"u1","o_pa_x","o_pa_y","o_pb_x","o_pb_y"}', 'MaxDepth': 5}})
 P('C03', ['sess.uid', 'resp.ran'], ['login', 'recover', 'twofa'], ['core', 'twofa'], fam_consts={'twofa': {'MaxDepth': 5}})
 P('C04', ['db.att', 'db.winLeft', 'db.lockLeft'], ['lock', 'login'], ['core', 'full'])
 P('C05', ['db.conf', 'db.cTok', 'db.rTok', 'db.rLeft', 'db.pw'], ['recover', 'register', 'login'], ['core', 'full'],
@@ -91,7 +92,7 @@ PROPS['C19']['assumptions'] = PROPS['C19']['assumptions'] + [
     'for 40 / 120 rule vectors (each bound alone, the shipped default, seeded random vectors), lengths in bytes']
 
 PROPS['C18'] = dict(engine='faults', level='fault_enumeration', quick={}, thorough={},
-                    foot=['C01.sessionOnlyByCredential', 'C01.otherBrowserUntouched', 'C02.primaryOnlyParks', 'C03.noLoginWhileBlocked', 'C13.changeAuthorised',
+                    foot=['C01.sessionOnlyByCredential', 'C01.otherBrowserUntouched', 'C02.primaryOnlyParks', 'C03.noLoginWhileBlocked', 'C03.middlewareBlocks', 'C13.changeAuthorised',
                           'C19.noAutoLoginUnderConfirm', 'C19.neverOverwrites', 'C19.invalidCreatesNothing'],
                     technique='fault injection at every backend call of requests inside random scenarios; each faulted step is judged by TLC (spec/Trace.tla) against the C18 clauses of spec/Props.tla with the fault-free specification step as the reference',
                     assumptions=['backends = harness store (Load/Save/Create/LoadBy*Selector/remember-token calls/OAuth2 calls), hasher, view and mail renderer, SMS sender, mailer, provider lookup; error kinds: generic I/O error at every call, ErrUserNotFound at load/save calls, ErrTokenNotFound at UseRememberToken',
